@@ -62,7 +62,7 @@ func (c *Contracts) RalphParseAndVerify(wire []byte, setIndex uint32, set []comm
 				return nil, errors.New("extractor mismatch: getGuardiansInfo argument")
 			}
 			if idx.Cmp(U(uint64(setIndex))) != 0 {
-				return nil, &Abort{"InvalidGuardianSetIndex"}
+				return nil, &Abort{Msg: "InvalidGuardianSetIndex"}
 			}
 			return []RVal{GuardiansInfo(set)}, nil
 		},
@@ -102,7 +102,7 @@ func (c *Contracts) SolParseVM(wire []byte) (*SolVM, error) {
 	idx := 0
 	read := func(st SolStep) (*big.Int, error) {
 		if idx+st.Width > len(wire) {
-			return nil, &Abort{"out of bounds read"}
+			return nil, &Abort{Msg: "out of bounds read"}
 		}
 		v := new(big.Int).SetBytes(wire[idx : idx+st.Width])
 		idx += st.Advance
@@ -116,7 +116,7 @@ func (c *Contracts) SolParseVM(wire []byte) (*SolVM, error) {
 		vm.Fields[st.Field] = v
 	}
 	if s.RequiredVersion != nil && vm.Fields["version"].Cmp(big.NewInt(int64(*s.RequiredVersion))) != 0 {
-		return nil, &Abort{"VM version incompatible"}
+		return nil, &Abort{Msg: "VM version incompatible"}
 	}
 	n, ok := vm.Fields["signersLen"]
 	if !ok {
@@ -134,7 +134,7 @@ func (c *Contracts) SolParseVM(wire []byte) (*SolVM, error) {
 		vm.Sigs = append(vm.Sigs, sig)
 	}
 	if idx > len(wire) {
-		return nil, &Abort{"out of bounds"}
+		return nil, &Abort{Msg: "out of bounds"}
 	}
 	vm.BodyBytes = append([]byte{}, wire[idx:]...)
 	for _, st := range s.ParseVM["body"] {
@@ -145,7 +145,7 @@ func (c *Contracts) SolParseVM(wire []byte) (*SolVM, error) {
 		vm.Fields[st.Field] = v
 	}
 	if idx > len(wire) {
-		return nil, &Abort{"out of bounds"}
+		return nil, &Abort{Msg: "out of bounds"}
 	}
 	vm.Payload = append([]byte{}, wire[idx:]...)
 	return vm, nil
@@ -155,25 +155,25 @@ func (c *Contracts) SolParseVM(wire []byte) (*SolVM, error) {
 // enough signatures, ascending indices below the set size, each recovering to the set's key.
 func (c *Contracts) SolVerify(vm *SolVM, set []common.Address) error {
 	if len(set) == 0 {
-		return &Abort{"invalid guardian set"}
+		return &Abort{Msg: "invalid guardian set"}
 	}
 	q, err := EvalInt(c.Solidity.Quorum.Expr, map[string]*big.Int{c.Solidity.Quorum.Param: big.NewInt(int64(len(set)))})
 	if err != nil {
 		return err
 	}
 	if big.NewInt(int64(len(vm.Sigs))).Cmp(q) < 0 {
-		return &Abort{"no quorum"}
+		return &Abort{Msg: "no quorum"}
 	}
 	digest := RefDigest(vm.BodyBytes)
 	last := -1
 	for i, s := range vm.Sigs {
 		gi := int(s["guardianIndex"].Int64())
 		if i > 0 && gi <= last {
-			return &Abort{"signature indices must be ascending"}
+			return &Abort{Msg: "signature indices must be ascending"}
 		}
 		last = gi
 		if gi >= len(set) {
-			return &Abort{"guardian index out of bounds"}
+			return &Abort{Msg: "guardian index out of bounds"}
 		}
 		var sig [65]byte
 		s["r"].FillBytes(sig[0:32])
@@ -182,7 +182,7 @@ func (c *Contracts) SolVerify(vm *SolVM, set []common.Address) error {
 		sig[64] = byte(v)
 		a, err := RefRecover(digest[:], sig[:])
 		if err != nil || a != set[gi] {
-			return &Abort{"VM signature invalid"}
+			return &Abort{Msg: "VM signature invalid"}
 		}
 	}
 	return nil
